@@ -90,7 +90,11 @@ def shrink_case(mod, case, still_bad, budget_s=20):
 
 def main(pid, tier="quick", seed=0, replay=None):
     mod = importlib.import_module("harness.props." + pid.lower())
-    v = lib.Verdict(pid, tier, seed)
+    replay_case = None
+    if replay:
+        rp = json.load(open(replay))
+        replay_case = rp.get("case")
+    v = lib.Verdict(pid, tier, seed, clear=not replay, tag="-replay" if replay else "")
     lockf = lib._lock()
     coverage = {}
     proof = {"obligations": 0, "discharged": 0, "error": "not built", "axioms": [], "theorems": []}
@@ -113,9 +117,7 @@ def main(pid, tier="quick", seed=0, replay=None):
     rng = random.Random(seed * 1000003 + 17)
     cases = []
     if replay:
-        rp = json.load(open(replay))
-        if "case" in rp:
-            cases = [rp["case"]]
+        cases = [replay_case] if replay_case is not None else []
     else:
         cases = [canon(c) for c in mod.corpus()]
         n_corpus = len(cases)
